@@ -89,6 +89,17 @@ class Path:
             return
         self.solver.add(c)
 
+    def _timed(self, what, thunk):
+        import os, time
+        if not os.environ.get("PVC_DEBUG_SLOW"):
+            return thunk()
+        t0 = time.time()
+        r = thunk()
+        if time.time() - t0 > 2:
+            open(f"/tmp/slowq_{int(time.time()*1000)%100000}.smt2", "w").write(self.solver.to_smt2())
+            print(f"[slow {what} {time.time() - t0:.1f}s -> {r}] assertions={len(self.solver.assertions())} last={str(self.solver.assertions()[-1])[:200] if len(self.solver.assertions()) else ''}", flush=True)
+        return r
+
     def _memo_query(self, thunk):
         """solver answers are computed once per (decision prefix, query ordinal) and reused when the prefix is re-executed:
         the executor is then a deterministic function of the decisions even when a time-out falls differently (busy machine)"""
@@ -102,12 +113,12 @@ class Path:
         return cache[key]
 
     def sat(self, *extra):
-        return self._memo_query(lambda: self._sat(*extra))
+        return self._memo_query(lambda: self._timed("sat " + str(extra)[:300], lambda: self._sat(*extra)))
 
     def implied(self, c):
         if c is True:
             return True
-        return self._memo_query(lambda: self._implied(c))
+        return self._memo_query(lambda: self._timed("implied " + str(c)[:300], lambda: self._implied(c)))
 
     def _sat(self, *extra):
         self.solver.push()
@@ -441,6 +452,10 @@ class Engine:
         if is_strv(base) or isinstance(base, (tuple, list, dict, set, frozenset, SymSeq, MapList, TermList)) or is_sym(base) \
                 or isinstance(base, (int, float)):
             return BoundMethod(base, attr, None)
+        if isinstance(base, CharV):
+            if not hasattr("", attr):
+                raise RaiseExc("AttributeError", implicit=True, info=f"str has no attribute {attr}")
+            return BoundMethod(base, attr, None)      # a method object of a one-character string (truthy when not called)
         import enum
         if isinstance(base, enum.Enum):
             if attr in ("name", "value"):
@@ -925,6 +940,11 @@ class Engine:
             return self.comp_nested(node, fr, path, 0, fr)
         g = node.generators[0]
         it = self.ev(g.iter, fr, path)
+        if isinstance(it, AbsSet):
+            r = self.comp_abs(node, g, it, fr, path)
+            if r is not None:
+                return r
+            it = it.materialise(self, path)
         if isinstance(it, (SymSeq, MapList)):
             if g.ifs:
                 return self.filtered(node, g, it, "seq")
@@ -945,6 +965,32 @@ class Engine:
             if all(path.branch(self.ev(c, f2, path), "comp-if") for c in g.ifs):
                 out.append(self.ev(node.elt, f2, path))
         return out
+
+    def comp_abs(self, node, g, it, fr, path):
+        """[f(e) for e in S] over an abstract set: when f keeps what every item denotes (split a range string, write a
+        character c as the range c-c, copy) the result denotes the same code points"""
+        from .values import as_pair, range_string
+        if g.ifs or it.kind not in ("char", "range", "pair"):
+            return None
+        if it.kind == "char":
+            k = self.fresh("elt", IntS)
+            e, lo, hi = CharV(k), k, k
+        else:
+            lo, hi = self.fresh("elt_lo", IntS), self.fresh("elt_hi", IntS)
+            path.assume(z3.And(0 <= lo, lo <= hi, hi <= 0x10FFFF))
+            e = range_string(CharV(lo), CharV(hi)) if it.kind == "range" else CharPair(CharV(lo), CharV(hi))
+        f2 = Frame(fr.func, dict(fr.env), fr.cls, fr.module, fr.self_obj)
+        self.assign(g.target, e, f2, path)
+        r = self.ev(node.elt, f2, path)
+        if isinstance(r, CharV) and it.kind == "char" and path.implied(zterm(r.code) == k):
+            return AbsSet("char", it.mem)
+        try:
+            a, b = as_pair(r)
+        except Exception:
+            return None
+        if path.implied(z3.And(zterm(a) == lo, zterm(b) == hi)):
+            return AbsSet("pair" if isinstance(r, (CharPair, tuple, list)) else "range", it.mem)
+        return None
 
     def filtered(self, node, g, it, kind):
         """a filtered comprehension over an oracle sequence is an uninterpreted function of that sequence, named by
@@ -1405,6 +1451,9 @@ class Engine:
         if isinstance(v, TermList):
             return v
         if isinstance(v, AbsSet):
+            c = self.contracts.get(getattr(fr.func, "qualname", None)) or {}
+            if c.get("enumerate_sets"):
+                return v.materialise(self, path)     # the function indexes / pops the list: some enumeration of the set
             return v            # the order of a set's elements is arbitrary; only the denotation is tracked
         raise Limitation(f"list({v!r})")
 
@@ -1959,6 +2008,12 @@ class SymSet:
     def __init__(self, seq):
         self.seq = seq
 
+    def m_union(self, eng, path, fr, other):
+        return AbsSet.of(eng, path, self).m_union(eng, path, fr, other)
+
+    def m_difference(self, eng, path, fr, other):
+        return AbsSet.of(eng, path, self).m_difference(eng, path, fr, other)
+
 
 class AbsSet:
     """a python set / list of class items (range strings 'a-z' and / or single characters, all unescaped and well formed)
@@ -1971,15 +2026,52 @@ class AbsSet:
     def __repr__(self):
         return f"<AbsSet {self.kind}>"
 
+    def materialise(self, eng, path):
+        """some enumeration of the set: a fresh list of well-formed items that denotes exactly the same code points"""
+        from .values import fresh_maplist
+        if self.kind not in ("range", "pair", "char"):
+            raise Limitation(f"enumeration of an abstract set of kind {self.kind}")
+        n = eng.fresh("enum_len", IntS)
+        path.assume(n >= 0)
+        L = fresh_maplist(eng, "enum", {"range": "rangestr", "pair": "pair", "char": "char"}[self.kind], n)
+        sb = eng.spec_builtins
+        if self.kind == "char":
+            path.assume(sb["WFC"](eng, path, L))
+            v = sb["CV"](eng, path, L)
+        else:
+            path.assume(sb["WFR"](eng, path, L))
+            v = sb["RV"](eng, path, L)
+        x = z3.Int("x!enum")
+        path.assume(z3.ForAll([x], v.mem(x) == self.mem(x)))
+        return L
+
+    @staticmethod
+    def of(eng, path, v):
+        """the abstract set a symbolic list / set of class items denotes"""
+        if isinstance(v, AbsSet):
+            return v
+        seq = v.seq if isinstance(v, SymSet) else v
+        if isinstance(seq, MapList) and seq.elem_kind in ("char", "rangestr", "pair"):
+            sb = eng.spec_builtins
+            if seq.elem_kind == "char":
+                return AbsSet("char", sb["CV"](eng, path, seq).mem)
+            return AbsSet("range" if seq.elem_kind == "rangestr" else "pair", sb["RV"](eng, path, seq).mem)
+        raise Limitation(f"no abstract view of {v!r}")
+
     def m_union(self, eng, path, fr, other):
+        if isinstance(other, (SymSet, MapList)):
+            other = AbsSet.of(eng, path, other)
         if not isinstance(other, AbsSet):
             raise Limitation(f"union of an abstract class-item set with {other!r}")
-        kind = self.kind if self.kind == other.kind else "mix"
+        norm = lambda k: "range" if k == "pair" else k
+        kind = norm(self.kind) if norm(self.kind) == norm(other.kind) else "mix"
         a, b = self.mem, other.mem
         return AbsSet(kind, lambda x, a=a, b=b: z3.Or(a(x), b(x)))
 
     def m_difference(self, eng, path, fr, other):
         # exact on the denotation only for sets of single (unescaped) characters: equal strings <=> equal code points
+        if isinstance(other, (SymSet, MapList)):
+            other = AbsSet.of(eng, path, other)
         if not (isinstance(other, AbsSet) and self.kind == "char" and other.kind == "char"):
             raise Limitation("difference of abstract class-item sets that are not both sets of characters")
         a, b = self.mem, other.mem
@@ -2044,8 +2136,8 @@ _qmemo = {}
 
 def has_quantifier(t):
     k = t.get_id()
-    if k in _qmemo:
-        return _qmemo[k]
+    if k in _qmemo and _qmemo[k][0].eq(t):
+        return _qmemo[k][1]         # (the term is kept alive in the memo: z3 reuses the ids of collected terms)
     seen = set()
     stack = [t]
     res = False
@@ -2058,7 +2150,7 @@ def has_quantifier(t):
             res = True
             break
         stack.extend(x.children())
-    _qmemo[k] = res
+    _qmemo[k] = (t, res)
     return res
 
 
